@@ -21,6 +21,9 @@ fn acts(full: bool) -> Vec<Act> {
         vec!["XREADGROUP", "GROUP", "g", "c1", "STREAMS", "s", ">"], vec!["XREADGROUP", "GROUP", "g", "c2", "STREAMS", "s", ">"],
         vec!["XREADGROUP", "GROUP", "g", "c1", "COUNT", "1", "STREAMS", "s", ">"], vec!["XREADGROUP", "GROUP", "g", "c2", "COUNT", "1", "STREAMS", "s", ">"],
         vec!["XREADGROUP", "GROUP", "g", "c1", "NOACK", "STREAMS", "s", ">"],
+        // NOACK together with a COUNT below the backlog (a seeded change advanced the group to the end of the stream
+        // instead of to the last entry handed out: equal unless COUNT cuts the delivery short), and COUNT 0
+        vec!["XREADGROUP", "GROUP", "g", "c2", "COUNT", "1", "NOACK", "STREAMS", "s", ">"], vec!["XREADGROUP", "GROUP", "g", "c1", "COUNT", "0", "STREAMS", "s", ">"],
         vec!["XREADGROUP", "GROUP", "g", "c1", "STREAMS", "s", "0-0"], vec!["XREADGROUP", "GROUP", "g2", "c1", "STREAMS", "s", ">"],
         vec!["XACK", "s", "g", "1-1"], vec!["XACK", "s", "g", "1-1", "1-1"], vec!["XACK", "s", "g", "9-9"], vec!["XACK", "s", "g", "1-1", "2-1"],
         vec!["XCLAIM", "s", "g", "c2", "0", "1-1"], vec!["XCLAIM", "s", "g", "c2", "1000", "1-1"], vec!["XCLAIM", "s", "g", "c2", "0", "3-1", "FORCE"], vec!["XCLAIM", "s", "g", "c2", "0", "1-1", "JUSTID"],
